@@ -660,10 +660,10 @@ def run(ctx):
         for a in range(128):
             for b in range(128):
                 try:
-                    table.append(int(chr(a) + chr(b), 16))
+                    table.append([a, b, int(chr(a) + chr(b), 16)])
                 except ValueError:
-                    table.append(-1000)
-        cases.append(('int16_table', table))
+                    pass
+        cases.append(('int16_accepted', table))
         recs.append(('int16_table', [], None))
         # receiver events per byte
         streams = [model_pack(p) for p in pool[:60]]
@@ -702,7 +702,7 @@ def run(ctx):
         ctx.cov['distinct_nontrivial'] += nontriv
         for r in recs[:: max(1, len(recs) // 8)]:
             ctx.note_sample({'fn': r[0], 'input': repr(r[1])[:160], 'impl': repr(r[2].v if isinstance(r[2], OkV) else r[2])[:160]})
-        bad = ctx.run_cases('rsp', ['Model.Rsp'], cases)
+        bad = ctx.run_cases('rsp', ['Model.Rsp'], cases, shard=110)
         if bad:
             kinds = {}
             for i in bad:
